@@ -526,7 +526,49 @@ class Interp:
         for st in body:
             self.exec_stmt(st, frame)
 
+    def _shape_obligation(self, lens):
+        """element-wise operation on arrays: numpy raises ValueError ('operands could not be broadcast together')
+        unless the lengths agree (length-1 operands broadcast)"""
+        if not self.config.get("shape_obligations", True):
+            return
+        frame = getattr(self, "cur_frame", None)
+        if frame is None:
+            return
+        base = None
+        conds = []
+        for n in lens:
+            if isinstance(n, int) and n == 1:
+                continue
+            if base is None:
+                base = n
+                continue
+            if n is base or (isinstance(n, int) and isinstance(base, int) and n == base):
+                continue
+            if isinstance(n, int) and isinstance(base, int):
+                conds.append(False)
+                continue
+            a = z3.IntVal(n) if isinstance(n, int) else n
+            b = z3.IntVal(base) if isinstance(base, int) else base
+            if z3.eq(z3.simplify(a - b), z3.IntVal(0)):
+                continue
+            conds.append(a == b)
+        if not conds:
+            return
+        root = frame
+        while root.func is None and root.parent is not None:
+            root = root.parent
+        name = f"{root.func.qualname if root.func is not None else frame.name}/shape"
+        goal = False if any(c is False for c in conds) else z3.And(*conds)
+        st = getattr(self, "cur_stmt", None)
+        self.path.prove(goal, name, kind="shape", desc=f"operands of an element-wise operation have the same length (line {getattr(st, 'lineno', '?')}: `{ast.unparse(st)[:80] if st is not None else ''}`)", props=self.config.get("implicit_props"))
+        if goal is not False:
+            self.path.assume(goal)
+
     def exec_stmt(self, st, frame):
+        self.cur_frame, self.cur_stmt = frame, st
+        from . import ops as _ops
+
+        _ops.SHAPE_HOOK = self._shape_obligation
         self.fuel -= 1
         if self.fuel < 0:
             raise Unsupported("execution fuel exhausted")
